@@ -19,7 +19,9 @@ VERIF = os.path.dirname(os.path.dirname(os.path.abspath(__file__)))
 PY = os.path.join(VERIF, ".venv", "bin", "python")
 EVID = os.path.join(VERIF, "evidence")
 REPLAYS = os.path.join(EVID, "replays")
-NCPU = min(16, os.cpu_count() or 1)
+NCPU = min(int(os.environ.get("VERIF_PROCS") or 16), os.cpu_count() or 1)
+# VERIF_BUDGET_SCALE < 1 shortens every exploration budget (rehearsals of the thorough tier); the evidence records it
+SCALE = float(os.environ.get("VERIF_BUDGET_SCALE") or 1.0)
 
 
 # ------------------------------------------------------------------ native server client
@@ -177,7 +179,7 @@ def _worker(args):
 
 
 def run_pool(hname, chunks, budget_s, seed, tier, procs=NCPU, extra=None, shuffle=True):
-    deadline = time.time() + budget_s
+    deadline = time.time() + budget_s * SCALE
     rnd = random.Random(seed)
     order = list(chunks)
     if shuffle:
@@ -314,6 +316,8 @@ def report(prop, hname, tier, seed, agg, t0, bounds, extra_cov=None, assumptions
     )
     if extra_cov:
         cov.update(extra_cov)
+    if SCALE != 1.0:
+        cov["budget_scale"] = SCALE
     ev = dict(property_id=prop, tier=tier, seed=seed, level=level, coverage=cov,
               assumptions=assumptions or [], wall_s=round(time.time() - t0, 2), violations=len(new))
     os.makedirs(EVID, exist_ok=True)
